@@ -55,7 +55,8 @@ MANIFEST_TEXT = ("Failed calls: for ALL histories of crate / membership calls x 
                  "all-or-nothing with the reachable-state theorems); without the transaction scope the same move leaves "
                  "a sibling list without a tail and the ordered walk is `ub` (v2c_C15_without_scope_counterexample). "
                  "Tied by a fault stream: every statement position of every mutating crate call on the sanitizer harness, "
-                 "every query through live and stale handles after each failure.")
+                 "every query through live and stale handles after each failure; for tracks (create / update / setters / remove, "
+                 "duplicate path) the same fault stream on the harness only (no theorem).")
 TRUSTED_EXTRA = []
 
 FAMILIES = {
@@ -374,6 +375,141 @@ def minimal_replay(script, tags, k):
     return script[:k + 1]
 
 
+# ---------------------------------------------------------------------------------------------------------------
+# tracks (both generations): harness only — the track models have no history-with-failures theorem yet (see
+# design/C15_faults.md, limits); the direct oracle is the same: after a fault at EVERY statement position of every
+# create / update / setter / remove call (and after a duplicate relative path: UNIQUE(path)), every getter, snapshot()
+# and a further mutating call must complete or throw.
+
+TRACK_MUT = ("set", "update", "mktrack", "rmtrack")
+
+
+def track_plan(fam, rng, tier, schema, hid, nadv):
+    from props.parts import C15_tracks_v2, C15_tracks_v1
+    if fam == "v2":
+        L = C15_tracks_v2.gen_script(rng, tier, schema, hid, nadv)
+        npre = 5        # mode, create, 3 x mktrack
+    else:
+        L = C15_tracks_v1.gen_script(rng, tier, schema, hid, nadv, "create")
+        npre = 5
+    pre = [L[0]] + L[1:npre]      # `#mode c15tv2` / `#mode c15tv1`: the harness skips it; names the replay
+    first = next(l for l in pre if l.startswith("mktrack ta "))
+    calls = [l for l in L[npre:] if l.split()[0] in TRACK_MUT]
+    # duplicate relative path (UNIQUE(path)): the snapshot of `ta` again, under a new handle; then a setter moving tb onto it
+    calls.insert(len(calls) // 2, "mktrack dup%d %s" % (hid, first.split(" ", 2)[2]))
+    return pre, calls
+
+
+def track_obs(tracks):
+    L = ["db.q tracks"]
+    for t in tracks:
+        L += ["get %s valid" % t, "snap %s" % t, "get %s hot_cues" % t, "get %s loops" % t, "get %s waveform" % t,
+              "get %s beatgrid" % t, "get %s duration" % t, "get %s relative_path" % t]
+    return L
+
+
+def track_stream(ctx, hist):
+    rng = random.Random(ctx.seed * 6007 + 1508)
+    thorough = ctx.tier == "thorough"
+    from props.parts import _tracksv2_gen as G2
+    plans = []
+    hid = 0
+    for fam, schemas in (("v2", GL.SCHEMAS_V2), ("v1", GL.SCHEMAS_V1)):
+        for s in K.rotate(schemas, ctx.seed + (5 if fam == "v1" else 2), len(schemas) if thorough else 2):
+            hid += 1
+            pre, calls = track_plan(fam, rng, ctx.tier, s, hid, 60 if thorough else 40)
+            plans.append((fam, s, pre, calls))
+    # pass 1
+    p1 = []
+    for fam, s, pre, calls in plans:
+        L = list(pre)
+        idx = []
+        for c in calls:
+            L.append("fault 1000000 0"); idx.append(len(L)); L.append(c); L.append("fault.status")
+        p1.append((L, idx))
+    r1 = runner.run_harness([x[0] for x in p1], watchdog=15, stateless=False)
+    violations, divergences = [], []
+    scripts2 = []
+    for (fam, s, pre, calls), (L1, idx), (ho, reports) in zip(plans, p1, r1):
+        bad = next((k for k, h in enumerate(ho) if h.startswith("ub") or h.startswith("missing-output")), None)
+        if bad is not None:
+            violations.append(ub_violation(fam, "tracks", L1, bad, ho[bad], reports, "recording pass"))
+            continue
+        L = list(pre)
+        tags = [("prefix", -1, -1, -1)] * len(L)
+        tracks = ["ta", "tb", "tx"]
+        bid = [0]
+
+        def block(ci, k):
+            bid[0] += 1
+            for l in track_obs(tracks):
+                L.append(l); tags.append(("obs", ci, k, bid[0]))
+        block(-1, -1)
+        for ci, (c, i) in enumerate(zip(calls, idx)):
+            n = min(seen_of(ho[i + 1]) or 0, 30)
+            hist["track_positions_per_call"][str(n)] = hist["track_positions_per_call"].get(str(n), 0) + 1
+            for k in range(n):
+                L.append("fault %d %d" % (k, n)); tags.append(("arm", ci, k, bid[0]))
+                L.append(c); tags.append(("faulted", ci, k, bid[0]))
+                L.append("fault.status"); tags.append(("status", ci, k, bid[0]))
+                block(ci, k)
+                hist["track_fault_experiments"] += 1
+            L.append(c); tags.append(("call", ci, -1, bid[0]))
+            if c.startswith("mktrack ") and ho[i].startswith("ok"):
+                tracks.append(c.split()[1])
+            block(ci, n)
+        scripts2.append((fam, L, tags))
+    hres = runner.run_harness([x[1] for x in scripts2], watchdog=20, stateless=False)
+    evals = 0
+    seen = set()
+    for (fam, L, tags), (ho, reports) in zip(scripts2, hres):
+        blocks = {}
+        for tg, h in zip(tags, ho):
+            if tg[0] == "obs":
+                blocks.setdefault(tg[3], []).append(h)
+        desync = False
+        for k, (l, tg, h) in enumerate(zip(L, tags, ho)):
+            if l.startswith("#") or h == "skipped-after-crash":
+                continue
+            evals += 1
+            seen.add((L[1], l[:80], tg[0], min(tg[2], 99)))
+            if tg[0] in ("faulted", "call"):
+                key = "track_outcome_" + tg[0]
+                hist[key][K.cls(h)] = hist[key].get(K.cls(h), 0) + 1
+            if tg[0] == "faulted":
+                op = " ".join(l.split()[:1] + l.split()[2:3]) if l.split()[0] == "set" else l.split()[0]
+                hist["track_fault_positions_per_op"][op] = hist["track_fault_positions_per_op"].get(op, 0) + 1
+            if h.startswith("ub") or h.startswith("missing-output"):
+                violations.append(ub_violation(fam, "tracks", minimal_replay(L, tags, k) , None, h, reports, "fault round", last=l))
+                break
+            if tg[0] == "faulted" and K.cls(h) != "throw" and not desync:
+                divergences.append({"input": " ; ".join(L[max(1, k - 1):k + 1])[-600:], "script": L[1],
+                                    "impl": "a call with a fault injected inside it did not throw: " + h[:200], "model": "-"})
+            if tg[0] == "status":
+                if "fired=1" not in h and not desync:
+                    divergences.append({"input": " ; ".join(L[max(1, k - 2):k + 1])[-600:], "script": L[1],
+                                        "impl": "fault did not fire: " + h[:100], "model": "-"})
+                b, a = blocks.get(tg[3]), blocks.get(tg[3] + 1)
+                if b is not None and a is not None and a != b and not desync:
+                    desync = True
+                    hist["partial_updates"] += 1
+                    if len(hist["partial_update_examples"]) < 6:
+                        hist["partial_update_examples"].append("%s tracks: `%s` failed at statement %d" % (L[1], L[k - 1][:60], tg[2]))
+    return violations, divergences, evals, len(seen)
+
+
+def ub_violation(fam, what, script, bad, h, reports, where, last=None):
+    body = script if bad is None else script[:bad + 1]
+    l = last if last is not None else body[-1]
+    rep = next((r for r in reports if r.get("line") == l), None)
+    sig = {"family": fam, "part": "faults_" + what, "op": " ".join(l.split()[:1] + l.split()[2:3]) if l.split()[0] in ("get", "set") else l.split()[0],
+           "ub": h, "after": where}
+    return {"tag": "ub_faults_%s_%s" % (what, fam), "signature": sig,
+            "header": {"kind": "script", "part": "faults", "what": "public call ended in undefined behaviour: %s   call: %s" % (h, l[:160])},
+            "body": body + ["impl(last): " + h] + (["stderr: " + x for x in rep["stderr"].split("\n")[-12:]] if rep else [])}
+
+
+
 def tie(ctx):
     rng = random.Random(ctx.seed * 7919 + 1507)
     hist = {"outcome_faulted": {}, "outcome_call": {}, "outcome_probe": {}, "fault_positions_per_op": {}, "positions_per_call": {},
@@ -423,13 +559,23 @@ def tie(ctx):
         violations += v
         evals += e
         distinct += n
+    hist.update({"track_positions_per_call": {}, "track_fault_experiments": 0, "track_outcome_faulted": {},
+                 "track_outcome_call": {}, "track_fault_positions_per_op": {}})
+    tv, td, te, tn = track_stream(ctx, hist)
+    violations += tv
+    divergences += td
+    evals += te
+    distinct += tn
     return {"ok": not divergences and not violations, "evaluations": evals, "distinct_nontrivial": distinct,
             "rule": "faults: per schema %d+ mutating calls of the crate API (every operation, first / middle / last sibling and "
                     "entry positions, name collisions on create / rename / move, missing ids, stale handles, seeded adversarial "
                     "calls); the number n of faultable statements of each call observed in a recording pass; then `fault k` for "
                     "EVERY k < n, the call, and after each failure v*.obs + raw tables + every query through every live and stale "
                     "handle; model = the call's statement program under the corresponding fault plan (Api/Faults*.callF); "
-                    "oracle: no `ub` line, a faulted call throws; distinct = distinct (schema, line, position)" % len(fixed_calls("v2")),
+                    "oracle: no `ub` line, a faulted call throws; distinct = distinct (schema, line, position).  Tracks (harness "
+                    "only): the create / update / setter / remove calls of the track parts' adversarial generators and a duplicate "
+                    "relative path, a fault at every statement position, then snapshot() and getters of every track"
+                    % len(fixed_calls("v2")),
             "samples": [" ; ".join(x[1][-3:])[:200] for x in scripts2[:2]],
             "histograms": hist, "divergences": divergences[:10], "violations": violations[:6]}
 
